@@ -146,6 +146,9 @@ func orTrue(t *Term) *Term {
 // ---------- loads and stores ----------
 
 func (x *fnExec) loadLeaf(st *State, key string, s *Sort, ref, idx *Term) *Term {
+	if ref == nil {
+		panic("load through a pointer value without object identity (" + key + ")")
+	}
 	a := st.arr(key, s)
 	v := Select(a, ref)
 	if isIndexedPrefix(key) {
@@ -610,6 +613,7 @@ func (x *fnExec) instr(fr *frame, st *State, instr ssa.Instruction) {
 		x.alloc(fr, st, t)
 	case *ssa.BinOp:
 		fr.env[t] = x.binop(fr, st, t.Op, x.val(fr, t.X), x.val(fr, t.Y), t.X.Type(), t.Y.Type(), t.Type(), t)
+		x.serialAudit(fr, st, t)
 	case *ssa.UnOp:
 		x.unop(fr, st, t)
 	case *ssa.Call:
@@ -686,10 +690,15 @@ func (x *fnExec) instr(fr *frame, st *State, instr ssa.Instruction) {
 			st.pc, st.heap, st.epoch = m.pc, m.heap, m.epoch
 		}
 	case *ssa.Select:
-		x.note("select in %s: received values unknown; no heap effect modelled (sequential semantics)", funcKey(fr.fn))
+		x.note("select in %s: received values unknown; only the ghost send counter is modelled (sequential semantics)", funcKey(fr.fn))
+		for _, s := range t.States {
+			if s.Dir == types.SendOnly {
+				x.countSend(st, x.val(fr, s.Chan).T)
+			}
+		}
 		fr.env[t] = freshVal("select", t.Type())
 	case *ssa.Send:
-		x.note("channel send in %s not modelled", funcKey(fr.fn))
+		x.countSend(st, x.val(fr, t.Chan).T)
 	case *ssa.Slice:
 		x.sliceOp(fr, st, t)
 	case *ssa.Store:
@@ -860,6 +869,12 @@ func (x *fnExec) binop(fr *frame, st *State, op token.Token, a, b Val, ta, tb, t
 		return scalar(BVCmp(o, x1, y1), tr)
 	}
 	panic("binop " + op.String())
+}
+
+// countSend increments the ghost counter of send attempts on a channel (used to state "the write loop was woken").
+func (x *fnExec) countSend(st *State, ch *Term) {
+	a := st.arr("X:sends", BV(64))
+	st.setArr("X:sends", Store(a, ch, BVBin("bvadd", Select(a, ch), BVU(1, 64))))
 }
 
 // opaqueRem keeps x % y with a symbolic divisor opaque: an uninterpreted term with lemma facts (range, identity below the
